@@ -562,6 +562,13 @@ def report_proof_break(ctx, have_input):
     """called when the Coq build of the property file failed or a forbidden construct
     appeared; returns True if a proof break was reported"""
     pr = ctx.proof
+    if ctx.unlocated and not have_input and not getattr(ctx, "_unlocated_reported", False):
+        # a constant the model takes from the source is gone from where the translator reads it: the model ran with a
+        # default, so nothing it agreed with is tied to the code any more
+        ctx._unlocated_reported = True
+        ctx.violation("no-failing-input-found", case=None, theorem="Generated/Params.v",
+                      detail="constants the model takes from the source could not be located there (tools/gen_params.py): %s; the model ran with defaults, "
+                             "so its agreement with the implementation no longer shows that the property holds" % ", ".join(ctx.unlocated))
     if pr.get("ok"):
         return False
     fe = pr.get("first_error", {})
